@@ -6,7 +6,7 @@ V = os.path.dirname(os.path.dirname(os.path.abspath(__file__)))
 TB = ("TLC 1.8.0 and the CommunityModules Json/IOUtils modules; the Go toolchain, net/http(+httptest), grpc-go, protobuf-go "
       "(dynamicpb/protodesc) as used by the harness; spec/*.tla as the statement of the property")
 
-RPCNOTE = "Direct drive through Mux.ServeHTTP (httptest); HTTP/2 framing for gRPC emulated with ProtoMajor=2 and recorder trailers; WebSocket and real grpc-go clients are covered by the socket drivers where built. " + TB
+RPCNOTE = "Direct drive through Mux.ServeHTTP (httptest); HTTP/2 framing for gRPC emulated with ProtoMajor=2 and recorder trailers; the WebSocket transport (C05, C06, C08) runs on a real loopback server with a raw RFC 6455 client; real grpc-go clients are used by the socket drivers (C10, C11, C12, C15, C20). A third of the non-gRPC requests are marked HTTP/2. " + TB
 
 CHECKS = {
  "C01": dict(engine="Router", level="model_checking", design="3.1, 6/C01",
@@ -32,14 +32,14 @@ CHECKS = {
 
  "C05": dict(engine="Rpc", level="model_checking", design="3.6, 6/C05",
    technique="TLA+ Rpc spec (per-RPC state machine, Apply/View) model-checked by TLC; status x message-shape x details x error-point product and TLC-generated handler scripts executed on every protocol through the real Mux; every recorded RPC validated by TLC against RpcTrace.tla (formula StatusFidelity, AlwaysResponds)",
-   text="TLC checks the per-RPC state machine over all handler scripts in scope; each case (codes 0..18,100,2^31-1; messages over {plain,%,control,2-/3-byte rune,long}; 0-2 details; before/after replies; HTTP JSON/protobuf, Twirp, gRPC, gRPC-web binary and text) runs against the real Mux and TLC compares the client-visible status with Rpc!View: grpc-status / exactly decodable grpc-message / details, HTTP status table and google.rpc.Status body, Twirp names; a crash or missing response is a violation.",
+   text="TLC checks the per-RPC state machine over all handler scripts in scope; each case (codes 0..18,100,2^31-1; messages over {plain,%,control,2-/3-byte rune,long}; 0-2 details; before/after replies; HTTP JSON/protobuf, Twirp, gRPC, gRPC-web binary and text, WebSocket close frames incl. reasons around the 123-byte capacity with the cut inside multi-byte characters) runs against the real Mux and TLC compares the client-visible status with Rpc!View: grpc-status / exactly decodable grpc-message / details, HTTP status table and google.rpc.Status body, Twirp names, WebSocket close code table and reason; a crash or missing response is a violation.",
    note=RPCNOTE),
  "C06": dict(engine="Rpc", level="model_checking", design="3.5-3.6, 6/C06",
    technique="TLA+ Rpc spec + Framing spec; message sequences x fragmenting read schedules x truncation points x transport x codec x compression executed through the real Mux; each RPC validated by TLC against RpcTrace.tla (RecvSeq, ReplySeq, SendResult)",
-   text="For client-, server- and bidi-streaming calls on HTTP (JSON, varint-protobuf), gRPC, gRPC-web binary/text, with and without gzip: the handler must receive exactly the client's sequence (each message proto.Equal to what was sent) followed by a clean end, a body cut inside a message yields the complete messages then an error, and the client must receive exactly the handler's sequence; request bodies are fed through a scripted reader with seeded chunk schedules incl. (n, io.EOF). The codec-level exhaustive schedule exploration is C17's.",
+   text="For client-, server- and bidi-streaming calls on HTTP (JSON, varint-protobuf), gRPC, gRPC-web binary/text, with and without gzip: the handler must receive exactly the client's sequence (each message proto.Equal to what was sent) followed by a clean end, a body cut inside a message yields the complete messages then an error, and the client must receive exactly the handler's sequence; WebSocket sessions (server-ended and client-ended, where the handler must see a clean, latched end of stream) run on real sockets; HttpBody uploads of every length around multiples of the chunk size go through Recv() from readers ending with (0,EOF), (n,EOF), one byte at a time and gzip (PoolTrace: UploadComplete, ChunkLimit); request bodies are fed through a scripted reader with seeded chunk schedules incl. (n, io.EOF). The codec-level exhaustive schedule exploration is C17's.",
    note=RPCNOTE),
  "C08": dict(engine="Rpc", level="model_checking", design="3.6, 6/C08",
-   technique="TLA+ Rpc spec with receive/send limits in Apply; limit x {L-1,L,L+1,50L} x codec x compression x protocol cases with exact wire sizes executed on the real Mux; validated by TLC against RpcTrace.tla (NeverOverLimit, RecvSeq/ReplySeq under limits)",
+   technique="TLA+ Rpc spec with receive/send limits in Apply; limit x {L-1,L,L+1,50L} x codec x compression x protocol cases with exact wire sizes (and WebSocket JSON messages) executed on the real Mux, plus record-boundary payloads whose limit falls exactly between records; validated by TLC against RpcTrace.tla (NeverOverLimit, Invoked, RecvSeq/ReplySeq under limits)",
    text="Messages are built to exact wire sizes around each configured limit; TLC requires that no handler observes a message larger than maxReceiveMessageSize (after decompression), that over-limit requests fail with an error, and that nothing within the receive and send limits is refused, with maxSend != maxRecv in both directions. Varint prefixes up to 2^64-1 are C17's.",
    note="A gzip frame of a tiny message is larger than the message, so gzip cases use limits >= 200. Over-limit replies may be refused or delivered (the property only forbids refusing replies within the limit). " + RPCNOTE),
  "C14": dict(engine="Rpc", level="model_checking", design="3.6, 6/C14",
